@@ -131,6 +131,7 @@ func NewBCtx(fn *ssa.Function) *BCtx {
 	c.stored = st
 	c.definitions()
 	c.induction()
+	c.lockstep()
 	c.loopUpperInvariants()
 	// phase 2: decide which signed->unsigned conversions are value preserving, then rebuild
 	safe := map[*ssa.Convert]bool{}
@@ -149,6 +150,7 @@ func NewBCtx(fn *ssa.Function) *BCtx {
 		c2 := &BCtx{Fn: fn, classOf: map[ssa.Value]string{}, stored: st, Lower: map[string]int64{}, Upper: map[string]int64{}, parity: map[string]int{}, safeConv: safe}
 		c2.definitions()
 		c2.induction()
+		c2.lockstep()
 		c2.loopUpperInvariants()
 		return c2
 	}
@@ -827,6 +829,63 @@ func (c *BCtx) induction() {
 	}
 }
 
+// lockstep relates integer phis of one loop header that start at constants and advance by constants
+// on the same edges (`for i, j := 0, 0; ...; i, j = i+1, j+2`): sq*(p-ip) == sp*(q-iq) holds
+// wherever both are defined.
+func (c *BCtx) lockstep() {
+	type ind struct {
+		phi        *ssa.Phi
+		init, step int64
+		kind       []byte // per incoming edge: 'i' init, 's' step
+	}
+	byBlock := map[*ssa.BasicBlock][]ind{}
+	for _, b := range c.Fn.Blocks {
+		for _, in := range b.Instrs {
+			phi, ok := in.(*ssa.Phi)
+			if !ok || !isIntType(phi.Type()) {
+				continue
+			}
+			x := ind{phi: phi, kind: make([]byte, len(phi.Edges))}
+			good, hasInit, hasStep := true, false, false
+			for k, e := range phi.Edges {
+				l := c.Lin(e)
+				switch {
+				case l.IsConst():
+					if hasInit && x.init != l.K {
+						good = false
+					}
+					x.init, hasInit = l.K, true
+					x.kind[k] = 'i'
+				case l.OK && len(l.C) == 1 && l.C[phi.Name()] == 1:
+					if hasStep && x.step != l.K {
+						good = false
+					}
+					x.step, hasStep = l.K, true
+					x.kind[k] = 's'
+				default:
+					good = false
+				}
+			}
+			if good && hasInit && hasStep && x.step != 0 {
+				byBlock[b] = append(byBlock[b], x)
+			}
+		}
+	}
+	for _, xs := range byBlock {
+		for i := 0; i < len(xs); i++ {
+			for j := i + 1; j < len(xs); j++ {
+				p, q := xs[i], xs[j]
+				if string(p.kind) != string(q.kind) {
+					continue
+				}
+				// q.step*(p - p.init) - p.step*(q - q.init) == 0
+				l := atomL(p.phi.Name()).Scale(q.step).Add(atomL(q.phi.Name()), -p.step).Add(konst(-q.step*p.init+p.step*q.init), 1)
+				c.global = append(c.global, l, l.Scale(-1))
+			}
+		}
+	}
+}
+
 // factsFromGuard appends the linear facts implied by a guard; par receives parity facts.
 func (c *BCtx) factsFromGuard(g Guard, cj *conj, ren map[string]string) {
 	facts, par := &cj.facts, cj.par
@@ -1071,6 +1130,72 @@ func (c *BCtx) strengthen(cj conj) []Lin {
 
 // Prove decides goal >= 0 under one conjunct.
 func (c *BCtx) proveIn(goal Lin, facts []Lin) bool {
+	if c.proveIn1(goal, facts) {
+		return true
+	}
+	// equalities among the facts (L >= 0 and -L >= 0) with a unit coefficient: substitute the atom
+	// away in the goal and in the other facts (j == 2*i makes a goal about j one about i) and retry
+	g2, f2, changed := eliminateEqualities(goal, facts)
+	return changed && c.proveIn1(g2, f2)
+}
+
+func eliminateEqualities(goal Lin, facts []Lin) (Lin, []Lin, bool) {
+	changed := false
+	fs := append([]Lin{}, facts...)
+	for round := 0; round < 3; round++ {
+		seen := map[string]int{}
+		for i, f := range fs {
+			if f.OK {
+				seen[f.String()] = i
+			}
+		}
+		var eq *Lin
+		atom := ""
+		for i := range fs {
+			f := fs[i]
+			if !f.OK || len(f.C) < 2 {
+				continue
+			}
+			if _, ok := seen[f.Scale(-1).String()]; !ok {
+				continue
+			}
+			for a, co := range f.C {
+				if (co == 1 || co == -1) && !strings.HasPrefix(a, "len[") && !strings.HasPrefix(a, "cap[") && goal.C[a] != 0 {
+					eq, atom = &fs[i], a
+				}
+			}
+			if eq != nil {
+				break
+			}
+		}
+		if eq == nil {
+			break
+		}
+		e := *eq
+		ca := e.C[atom]
+		sub := func(g Lin) Lin {
+			cg := g.C[atom]
+			if !g.OK || cg == 0 {
+				return g
+			}
+			return g.Add(e, -cg*ca)
+		}
+		goal = sub(goal)
+		var nf []Lin
+		for _, f := range fs {
+			f2 := sub(f)
+			if f2.OK && len(f2.C) == 0 {
+				continue // the equality itself
+			}
+			nf = append(nf, f2)
+		}
+		fs = nf
+		changed = true
+	}
+	return goal, fs, changed
+}
+
+func (c *BCtx) proveIn1(goal Lin, facts []Lin) bool {
 	if !goal.OK {
 		return false
 	}
@@ -1101,7 +1226,7 @@ func (c *BCtx) proveIn(goal Lin, facts []Lin) bool {
 			all := true
 			for _, arg := range args {
 				g2 := goal.Add(atomL(a).Scale(co), -1).Add(arg.Scale(co), 1)
-				if !c.proveIn(g2, facts) {
+				if !c.proveIn1(g2, facts) {
 					all = false
 					break
 				}
